@@ -1,5 +1,5 @@
 CONSTANTS NStart = 6
-          Spread = 9
+          Spread = 5
           Offsets = {0, 1, 2, 3, 4, 5, 6, 7, 8, 9, 14, 28, 35, 61, 100, 366, 400}
           RunSecs = {0, 1, 21600, 64800, 86399}
           NHolDays = 4
